@@ -5,20 +5,20 @@ LEAN_TARGETS = ["Rsp.Props.C16"]
 THEOREMS = ["Rsp.Props.C16.server_framing_depends_only_on_stream", "Rsp.Props.C16.segmentation_independent", "Rsp.Props.C16.readN_blocking",
             "Rsp.Props.C16.radGet_blocking", "Rsp.Props.C16.pollScript_blocking", "Rsp.Props.C16.framesOut_step", "Rsp.Props.C16.checkedRadLength_pos_iff",
             "Rsp.Props.C16.client_packets_prefix_of_framing", "Rsp.Props.C16.radGet_nb", "Rsp.Props.C16.readN_nb"]
-RULE = ("the real radtcpget/tcpreadtimeout on a socketpair whose peer is scripted from inside poll(): streams of 1..4 packets of lengths 20..4096 (boundary lengths 20,21,4095,4096), "
+RULE = ("the real radtcpget/tcpreadtimeout on loopback TCP and the real radtlsget/sslreadtimeout on a TLS session, peers scripted from inside poll(): streams of 1..4 packets of lengths 20..4096 (boundary lengths 20,21,4095,4096), "
         "EVERY split point of short streams (exhaustive two-way partitions), random partitions of long ones incl. 1-octet writes and splits inside the 4-octet header, stalls longer "
         "than the reader's timeout at every position, end of stream at every offset, length fields 0..19 and 4097..65535; server-side loop (no timeout) and client-side loop "
         "(timeouts reported, reading goes on). non-trivial = the stream is cut inside a packet or carries an invalid length")
 EXHAUSTIVE = {"quick": ["get_checked_rad_length on all 65536 length-field values", "every two-way split and every truncation point of a 2-packet stream (20+23 octets), with and without a stall at the split"],
               "thorough": ["get_checked_rad_length on all 65536 length-field values", "every two-way split and every truncation point of 2- and 3-packet streams, with and without a stall at the split"]}
-ASSUMPTIONS = ["TLS (radtlsget/sslreadtimeout) has the same structure over SSL_read and received the same repair; it is not executed by the harness",
+ASSUMPTIONS = ["TLS: radtlsget/sslreadtimeout run on a real TLS session (in-process handshake over loopback TCP, self-signed key made at start-up); they are compared with the same stream model, whose theorems are stated for the TCP functions",
                "one read() returns what one write() delivered or a prefix of it (the scripted peer writes only when the socket buffer is empty)"]
 LEVEL_TEXT = ("Lean 4 theorems. Reader without timeout (tcpserverrd): whatever the partition of the octets into writes and whatever silences lie between them, the packets extracted "
               "and the way the connection ends are the frame decomposition of the octet stream alone (server_framing_depends_only_on_stream, segmentation_independent). Reader with "
               "timeout (tcpclientrd): for every script of writes, stalls and end of stream, the packets handed to replyh are a prefix of that decomposition - a timeout consumes nothing, "
               "a stall inside a message ends the connection, no partial or misframed packet is processed (client_packets_prefix_of_framing). get_checked_rad_length is positive exactly for "
-              "20..4096 (checkedRadLength_pos_iff). PARTIAL: the TLS variant (radtlsget/sslreadtimeout) has the same structure and repair but is not executed or separately modelled.")
-LEVEL_NOTE = "Trusted: Lean kernel + std axioms; harness (poll interposition, socketpair); generators. Modelled: tcpreadtimeout, radtcpget, the two reader loops. TLS path not executed."
+              "20..4096 (checkedRadLength_pos_iff). The TLS readers (radtlsget/sslreadtimeout over SSL_read) are tied to the same model by differential runs on real TLS sessions.")
+LEVEL_NOTE = "Trusted: Lean kernel + std axioms; harness (poll interposition, loopback TCP, in-process TLS peers); generators; OpenSSL record layer. Modelled: tcpreadtimeout/sslreadtimeout, radtcpget/radtlsget, the reader loops of tcpclientrd/tcpserverrd/tlsclientrd/tlsserverrd."
 TECHNIQUE = "Lean 4 proof (induction over the stream, invariant 'pending octets') + differential correspondence on scripted socket peers + spec monitor on extracted packets"
 DESIGN_REF = "§5 C16"
 
@@ -52,6 +52,9 @@ def gen(rng, tier):
             cs.append(Case(script_line("server", 0, w(a) + ["e"]), kind="truncate", cut=1))
             cs.append(Case(script_line("client", 7, w(a) + ["e"]), kind="truncate", cut=1))
             cs.append(Case(script_line("client", 7, w(a) + ["t", "t"]), kind="truncate-stall", cut=1))
+            if i % 3 == 0:
+                cs.append(Case("tlsstream client 7 " + " ".join(w(a) + ["t"] + w(b) + ["e"]), kind="tls-split-stall", cut=1))
+                cs.append(Case("tlsstream server 7 " + " ".join(w(a) + w(b) + ["e"]), kind="tls-split", cut=1))
     # the length check itself, on every value of the 16-bit field
     for L in range(65536):
         cs.append(Case("radlen %02x%02x%02x%02x" % (rng.randrange(256), rng.randrange(256), L >> 8, L & 255), kind="radlen", cut=int(L < 20 or L > 4096)))
@@ -89,6 +92,9 @@ def gen(rng, tier):
         if evs[-1] == "e" and len(evs) >= 2 and evs[-2].startswith("w:") and rng.random() < 0.5:
             evs[-2:] = ["W:" + evs[-2][2:]]
         cs.append(Case(script_line(mode, 0 if mode == "server" else rng.choice([1, 20]), evs), kind="random-" + mode, cut=int(bad or stalls > 0), npk=n))
+        if rng.random() < (0.5 if tier == "quick" else 0.3) and len(s) < 9000:
+            # the same delivery over a real TLS session (radtlsget / sslreadtimeout); both TLS reader loops use a timeout
+            cs.append(Case("tlsstream %s %d %s" % (mode, rng.choice([1, 20, 180]), " ".join(evs)), kind="tls-" + mode, cut=int(bad or stalls > 0), npk=n))
     return cs
 
 
